@@ -222,7 +222,7 @@ func (s *botSess) settleN() (bool, int) {
 			return true, live
 		}
 		if i == 50 {
-			deadline = time.Now().Add(10 * time.Second)
+			deadline = time.Now().Add(60 * time.Second)
 		}
 		if i > 50 && time.Now().After(deadline) {
 			s.hung = true
@@ -492,7 +492,7 @@ func init() {
 				r = "gone"
 				break
 			}
-			t := time.NewTimer(10 * time.Second)
+			t := time.NewTimer(60 * time.Second)
 			select {
 			case b.lines <- line:
 				r = "ok"
